@@ -27,6 +27,11 @@ fn tokens(prev: [u8; 20], curr: [u8; 20], age_ms: u64) -> Tokens {
     Tokens { prev_secret: prev, curr_secret: curr, last_updated: clock::ago_ms(age_ms) }
 }
 
+/// a Tokens value with fixed secrets, for harnesses of callers that stub validate/generate_token
+pub(crate) fn fixed_tokens() -> Tokens {
+    tokens([1u8; 20], [2u8; 20], 0)
+}
+
 pub(crate) fn fill_symbolic(dest: &mut [u8]) -> Result<(), getrandom::Error> {
     let mut i = 0usize;
     while i < dest.len() {
